@@ -11,6 +11,7 @@ import (
 	"math/rand"
 	"os"
 	"reflect"
+	"strings"
 	"testing"
 
 	"github.com/tencent/goom/arg"
@@ -31,6 +32,11 @@ type aOut struct {
 type aArrP struct{ Ps [2]*int }
 type aBody struct{ V interface{} }
 type aIf struct{ Body aBody }
+
+type aNode struct {
+	V    int
+	Next *aNode
+}
 
 type aErr struct{ s string }
 
@@ -79,6 +85,43 @@ func argPools(rng *rand.Rand, extra int) []argPool {
 	add("structalias", aBody{}, aBody{buf[:2]}, aBody{buf[:4]}, aBody{buf[2:4]}, aBody{buf[:2]}, aBody{[]int{1, 2}}, aBody{buf[:0]})
 	str := "abab"
 	add("stralias", "", str[:2], str[:4], str[2:4], str[:0], "ab")
+	// SCALE: long slices / strings, big maps, deep chains - equal copies and copies that differ late (last element, element 16 / 17)
+	mk := func(n int, at, val int) []int {
+		v := make([]int, n)
+		for i := range v {
+			v[i] = i * 3
+		}
+		if at >= 0 {
+			v[at] = val
+		}
+		return v
+	}
+	add("longslice", []int{}, mk(1000, -1, 0), mk(1000, -1, 0), mk(1000, 999, -1), mk(1000, 16, -1), mk(1000, 17, -1), mk(999, -1, 0), mk(1001, -1, 0), mk(1000, 0, -1))
+	ls := strings.Repeat("abcdefgh", 600)
+	add("longstring", "", ls, ls+"", ls[:len(ls)-1]+"X", "X"+ls[1:], ls[:len(ls)-1], ls+"h")
+	bm := func(n int, k string, v int) map[string]int {
+		m := map[string]int{}
+		for i := 0; i < n; i++ {
+			m[fmt.Sprint("k", i)] = i
+		}
+		if k != "" {
+			m[k] = v
+		}
+		return m
+	}
+	add("bigmap", map[string]int{}, bm(300, "", 0), bm(300, "", 0), bm(300, "k299", -1), bm(300, "k17", -1), bm(299, "", 0), bm(299, "other", 299))
+	chain := func(n, last int) *aNode {
+		var h *aNode
+		for i := n; i >= 1; i-- {
+			v := i
+			if i == n {
+				v = last
+			}
+			h = &aNode{V: v, Next: h}
+		}
+		return h
+	}
+	add("deepchain", &aNode{}, chain(40, 40), chain(40, 40), chain(40, -1), chain(39, 39), chain(41, 41), (*aNode)(nil), nil)
 	add("map", map[string]int{}, map[string]int(nil), map[string]int{}, map[string]int{"a": 1}, map[string]int{"a": 1}, map[string]int{"a": 2}, nil)
 	add("ptrint", ip(0), ip(1), ip(1), ip(2), (*int)(nil), nil)
 	add("ptrstruct", &aS{}, &aS{1, "x", nil}, &aS{1, "x", nil}, &aS{2, "x", nil}, (*aS)(nil), nil)
